@@ -676,6 +676,235 @@ with parse_pory_stmts (fuel : nat) (script : text) (bs cs : list nat) (multi : b
     else Ok (acc ++ ss, impadd imp imp', ts2)
   end.
 
+(* BEGIN UNFOLD *)
+Lemma parse_stmt_unfold f (script : text) (bs cs : list nat) (ts : toks) :
+  parse_stmt (S f) script bs cs ts =
+
+  match ttype (cur ts) with
+  | IDENT =>
+      match try_label ts with
+      | Some (l, ts1) => Ok ([l], imp0, ts1)
+      | None => do (c, imp, ts1) <- command_stmt f script ts; Ok ([SCmd c], imp, ts1)
+      end
+  | IF => parse_if f script bs cs ts
+  | WHILE =>
+      let tg := List.length ts in
+      do (c, b, imp, ts1) <- parse_cond f false script (tg :: bs) (tg :: cs) ts;
+      Ok ([SWhile tg c b], imp, ts1)
+  | DO =>
+      let tg := List.length ts in
+      match expect_peek LBRACE ts with
+      | None => err_range (cur ts) (pk 1 ts) "missing opening curly brace of do...while statement"
+      | Some ts1 =>
+          do (b, imp, ts2) <- parse_block f script (tg :: bs) (tg :: cs) (cur ts1) (adv ts1) [] imp0;
+          match expect_peek WHILE ts2 with
+          | None => err_range (cur ts2) (pk 1 ts2) "missing 'while' after body of do...while statement"
+          | Some ts3 =>
+              match expect_peek LPAREN ts3 with
+              | None => err_range (cur ts3) (pk 1 ts3) "missing '(' to start condition for do...while statement"
+              | Some ts4 =>
+                  do (e, imp', ts5) <- bool_expr f false false script ts4;
+                  Ok ([SDoWhile tg b e], impadd imp imp', ts5)
+              end
+          end
+      end
+  | BREAK =>
+      match bs with
+      | [] => err_tok (cur ts) "'break' statement outside of any break-able scope"
+      | tg :: _ => Ok ([SBreak tg], imp0, ts)
+      end
+  | CONTINUE =>
+      match cs with
+      | [] => err_tok (cur ts) "'continue' statement outside of any continue-able scope"
+      | tg :: _ => if peekis RBRACE ts then Ok ([SContinue tg], imp0, ts)
+                   else err_tok (cur ts) "'continue' must be the last statement in block scope"
+      end
+  | SWITCH => parse_switch f script bs cs ts
+  | PORYSWITCH => parse_pory f script bs cs ts
+  | _ => err_tok (cur ts) "could not parse statement"
+  end.
+Proof. reflexivity. Qed.
+
+Lemma parse_block_unfold f (script : text) (bs cs : list nat) (start : token) (ts : toks)
+                 (acc : list stmt) (imp : impdata) :
+  parse_block (S f) script bs cs start ts acc imp =
+
+  if curis RBRACE ts then Ok (acc, imp, ts)
+  else if curis EOF ts then err_tok start "missing closing curly brace for block statement"
+  else do (ss, imp', ts1) <- parse_stmt f script bs cs ts;
+       parse_block f script bs cs start (adv ts1) (acc ++ ss) (impadd imp imp').
+Proof. reflexivity. Qed.
+
+Lemma parse_switch_block_unfold f (script : text) (bs cs : list nat) (start : token) (ts : toks)
+                 (acc : list stmt) (imp : impdata) :
+  parse_switch_block (S f) script bs cs start ts acc imp =
+
+  if curis RBRACE ts || curis CASE ts || curis DEFAULT ts then Ok (acc, imp, ts)
+  else if curis EOF ts then err_range start (cur ts) "missing end for switch case body"
+  else do (ss, imp', ts1) <- parse_stmt f script bs cs ts;
+       parse_switch_block f script bs cs start (adv ts1) (acc ++ ss) (impadd imp imp').
+Proof. reflexivity. Qed.
+
+Lemma parse_cond_unfold f (require : bool) (script : text) (bs cs : list nat) (ts : toks) :
+  parse_cond (S f) require script bs cs ts =
+
+  do (e, imp, ts1) <-
+     (if require || negb (peekis LBRACE ts) then
+        match expect_peek LPAREN ts with
+        | None => err_range (cur ts) (pk 1 ts) "missing '(' to start boolean expression"
+        | Some tsa => do (e, imp, tsb) <- bool_expr f false false script tsa; Ok (Some e, imp, tsb)
+        end
+      else Ok (None, imp0, ts));
+  match expect_peek LBRACE ts1 with
+  | None => err_tok (pk 1 ts1) "expected next token to be '{'"
+  | Some ts2 =>
+      do (b, imp', ts3) <- parse_block f script bs cs (cur ts2) (adv ts2) [] imp0;
+      Ok (e, b, impadd imp imp', ts3)
+  end.
+Proof. reflexivity. Qed.
+
+Lemma parse_if_unfold f (script : text) (bs cs : list nat) (ts : toks) :
+  parse_if (S f) script bs cs ts =
+
+  do (e, b, imp, ts1) <- parse_cond f true script bs cs ts;
+  match e with
+  | None => Panic
+  | Some e1 =>
+      do (elifs, imp2, ts2) <- parse_elifs f script bs cs ts1 [] imp;
+      if peekis ELSE ts2 then
+        let ts3 := adv ts2 in
+        match expect_peek LBRACE ts3 with
+        | None => err_range (cur ts3) (pk 1 ts3) "missing opening curly brace of else statement"
+        | Some ts4 =>
+            do (eb, imp3, ts5) <- parse_block f script bs cs (cur ts4) (adv ts4) [] imp0;
+            Ok ([SIf ((e1, b) :: elifs) (Some eb)], impadd imp2 imp3, ts5)
+        end
+      else Ok ([SIf ((e1, b) :: elifs) None], imp2, ts2)
+  end.
+Proof. reflexivity. Qed.
+
+Lemma parse_elifs_unfold f (script : text) (bs cs : list nat) (ts : toks)
+                 (acc : list (bexp * list stmt)) (imp : impdata) :
+  parse_elifs (S f) script bs cs ts acc imp =
+
+  if peekis ELSEIF ts then
+    do (e, b, imp', ts1) <- parse_cond f true script bs cs (adv ts);
+    match e with
+    | None => Panic
+    | Some e1 => parse_elifs f script bs cs ts1 (acc ++ [(e1, b)]) (impadd imp imp')
+    end
+  else Ok (acc, imp, ts).
+Proof. reflexivity. Qed.
+
+Lemma parse_switch_unfold f (script : text) (bs cs : list nat) (ts : toks) :
+  parse_switch (S f) script bs cs ts =
+
+  let tg := List.length ts in
+  let orig := cur ts in
+  match expect_peek LPAREN ts with
+  | None => err_range (cur ts) (pk 1 ts) "missing opening parenthesis of switch statement operand"
+  | Some ts1 =>
+      do (r, imp, ts2) <- var_or_autovar f script ts1;
+      do (operand, oline, pre, ts3) <-
+         (match r with
+          | None =>
+              let ts2' := adv ts2 in
+              do (parts, tsx) <- switch_operand f orig ts2' [];
+              Ok (join sp parts, tline (cur ts2'), None, adv tsx)
+          | Some (v, c) =>
+              match expect_peek RPAREN ts2 with
+              | None => err_tok orig "missing closing parenthesis of switch statement value"
+              | Some tsx => Ok (v, tline (ctok c), Some c, tsx)
+              end
+          end);
+      match expect_peek LBRACE ts3 with
+      | None => err_range (cur ts3) (pk 1 ts3) "missing opening curly brace of switch statement"
+      | Some ts4 =>
+          do (cases, imp', ts5) <- parse_cases f script (tg :: bs) cs (cur ts4) (adv ts4) [] [] false imp0;
+          match cases with
+          | [] => err_range orig (cur ts5) "switch statement has no cases or default case"
+          | _ => Ok ((match pre with Some c => [SCmd c] | None => [] end) ++ [SSwitch tg operand oline cases],
+                     impadd imp imp', ts5)
+          end
+      end
+  end.
+Proof. reflexivity. Qed.
+
+Lemma parse_cases_unfold f (script : text) (bs cs : list nat) (brace : token) (ts : toks)
+                 (acc : list scase) (seen : list text) (hasdef : bool) (imp : impdata) :
+  parse_cases (S f) script bs cs brace ts acc seen hasdef imp =
+
+  if curis RBRACE ts then Ok (acc, imp, ts)
+  else if curis CASE ts then
+    let ctk := cur ts in
+    let ts1 := adv ts in
+    let vtk := cur ts1 in
+    match collect_until f (is COLON) ts1 [] with
+    | None => err_tok ctk "missing `:` after 'case'"
+    | Some (parts, ts2) =>
+        let v := join sp parts in
+        if existsb (text_eqb v) seen then err_range ctk (cur ts2) "duplicate switch cases detected"
+        else do (b, imp', ts3) <- parse_switch_block f script bs cs brace (adv ts2) [] imp0;
+             parse_cases f script bs cs brace ts3 (acc ++ [(false, v, tline vtk, b)]) (v :: seen) hasdef (impadd imp imp')
+    end
+  else if curis DEFAULT ts then
+    if hasdef then err_tok (cur ts) "multiple `default` cases found in switch statement"
+    else match expect_peek COLON ts with
+         | None => err_tok (cur ts) "missing `:` after default"
+         | Some ts1 =>
+             do (b, imp', ts2) <- parse_switch_block f script bs cs brace (adv ts1) [] imp0;
+             parse_cases f script bs cs brace ts2 (acc ++ [(true, [], 0%Z, b)]) seen true (impadd imp imp')
+         end
+  else err_tok (cur ts) "invalid start of switch case".
+Proof. reflexivity. Qed.
+
+Lemma parse_pory_unfold f (script : text) (bs cs : list nat) (ts : toks) :
+  parse_pory (S f) script bs cs ts =
+
+  let start := cur ts in
+  do (sc, sv, ts1) <- poryswitch_header ts;
+  do (cases, ts2) <- parse_pory_cases f script bs cs (cur ts1) ts1 [];
+  match assoc cases (sval sv) with
+  | Some (ss, imp) => Ok (ss, imp, ts2)
+  | None => match assoc cases (t "_") with
+            | Some (ss, imp) => Ok (ss, imp, ts2)
+            | None => if env_errors then err_tok start "no poryswitch case found" else Ok ([], imp0, ts2)
+            end
+  end.
+Proof. reflexivity. Qed.
+
+Lemma parse_pory_cases_unfold f (script : text) (bs cs : list nat) (start : token) (ts : toks)
+                      (acc : list (text * (list stmt * impdata))) :
+  parse_pory_cases (S f) script bs cs start ts acc =
+
+  if curis RBRACE ts then Ok (acc, ts)
+  else if curis EOF ts then err_tok start "missing closing curly braces for poryswitch statement"
+  else if negb (curis IDENT ts) && negb (curis INT ts) then err_tok (cur ts) "invalid poryswitch case"
+  else
+    let ctk := cur ts in
+    let ts1 := adv ts in
+    if curis COLON ts1 || curis LBRACE ts1 then
+      let brace := curis LBRACE ts1 in
+      do (ss, imp, ts2) <- parse_pory_stmts f script bs cs brace (adv ts1) [] imp0;
+      if brace then
+        if negb (curis RBRACE ts2) then err_tok ctk "missing closing curly brace for poryswitch case"
+        else parse_pory_cases f script bs cs start (adv ts2) ((tlit ctk, (ss, imp)) :: acc)
+      else parse_pory_cases f script bs cs start ts2 ((tlit ctk, (ss, imp)) :: acc)
+    else err_tok (cur ts1) "invalid token after poryswitch case".
+Proof. reflexivity. Qed.
+
+Lemma parse_pory_stmts_unfold f (script : text) (bs cs : list nat) (multi : bool) (ts : toks)
+                      (acc : list stmt) (imp : impdata) :
+  parse_pory_stmts (S f) script bs cs multi ts acc imp =
+
+  if curis RBRACE ts then Ok (acc, imp, ts)
+  else
+    do (ss, imp', ts1) <- (if curis PORYSWITCH ts then parse_pory f script bs cs ts else parse_stmt f script bs cs ts);
+    let ts2 := adv ts1 in
+    if multi then parse_pory_stmts f script bs cs multi ts2 (acc ++ ss) (impadd imp imp')
+    else Ok (acc ++ ss, impadd imp imp', ts2).
+Proof. reflexivity. Qed.
+(* END UNFOLD *)
 (* ---------- top-level statements that only read the constants ---------- *)
 Definition scope_modifier (default : bool) (ts : toks) : res (bool * toks) :=
   if negb (peekis LPAREN ts) then Ok (default, ts) else
